@@ -93,9 +93,15 @@ def verify_function(job):
         reg = {}
         for m in CONTRACT_MODULES:
             reg.update(importlib.import_module("contracts." + m).C)
-        c = reg[key]
-        qual = c.get("function", key.split("#")[0])
-        ctx = core.Ctx(qual, c, reg, budget=budget, label=key, prop=prop)
+        if key.startswith("lemma:"):
+            lem = importlib.import_module("contracts." + modname).LEMMAS[key[6:]]
+            c = {"mode": lem.get("mode", "R"), "owner": lem.get("owner")}
+            qual = lem["context"]
+            ctx = core.LemmaCtx(key, lem, reg, budget=budget, prop=prop)
+        else:
+            c = reg[key]
+            qual = c.get("function", key.split("#")[0])
+            ctx = core.Ctx(qual, c, reg, budget=budget, label=key, prop=prop)
         try:
             ctx.run()
         except core.Unsupported as e:
